@@ -323,6 +323,9 @@ func runGateSession(h *wsx.Harness, job gateJob) (res gateResult) {
 					if fr.C01Sig != "" {
 						mk(fr.C01Sig, "C01", fmt.Sprintf("%s: the event is authentic by the reference (refmodel serializer + btcec) but did not reach the handler; client got %v", where, res.obs[len(res.obs)-1].Replies))
 					}
+					if fr.C11Sig != "" {
+						mk(fr.C11Sig, "C11", fmt.Sprintf("%s: the message is well-formed but did not reach the handler; client got %v", where, res.obs[len(res.obs)-1].Replies))
+					}
 					disp = "not delivered"
 				case len(ng) > 1:
 					mk(fmt.Sprintf("valid frame delivered more than once (%s)", fr.sigClass()), "C12", fmt.Sprintf("%s: the handler received %d messages: %v", where, len(ng), res.obs[len(res.obs)-1].Delivered))
@@ -342,6 +345,9 @@ func runGateSession(h *wsx.Harness, job gateJob) (res gateResult) {
 					mk(fmt.Sprintf("invalid frame reached the handler (%s)", fr.sigClass()), "C12", fmt.Sprintf("%s: the handler received %v", where, res.obs[len(res.obs)-1].Delivered))
 					if fr.C01Sig != "" {
 						mk(fr.C01Sig, "C01", fmt.Sprintf("%s: the event is not authentic by the reference but the handler received %v", where, res.obs[len(res.obs)-1].Delivered))
+					}
+					if fr.C11Sig != "" {
+						mk(fr.C11Sig, "C11", fmt.Sprintf("%s: the message breaks a constraint of the statement but the handler received %v", where, res.obs[len(res.obs)-1].Delivered))
 					}
 					disp = "reached the handler"
 				}
@@ -677,6 +683,14 @@ func gateJobs(tier string) (jobs []gateJob, sweepEvents int) {
 		all = append(all, &sw[i])
 	}
 	jobs = append(jobs, gateJob{Frames: all, Script: "echo", Mode: "stepwise", Kind: "c01-sweep"})
+	// C11 gate sweep: each message alone, then all of them in one session
+	sw11 := c11Sweep()
+	var all11 []*frame
+	for i := range sw11 {
+		jobs = append(jobs, gateJob{Frames: []*frame{&sw11[i]}, Script: "silent", Mode: "stepwise", Kind: "c11-sweep"})
+		all11 = append(all11, &sw11[i])
+	}
+	jobs = append(jobs, gateJob{Frames: all11, Script: "echo", Mode: "stepwise", Kind: "c11-sweep"})
 	un := unclaimedFrames()
 	for i := range un {
 		jobs = append(jobs, gateJob{Frames: []*frame{&un[i]}, Script: "silent", Mode: "stepwise", Kind: "unclaimed"})
@@ -721,6 +735,11 @@ func wsGateShard(tier string, shard, n int, r *rec, h *wsx.Harness) {
 				// one outcome class per verdict, not per event
 				if i := strings.Index(d, " -> "); i >= 0 {
 					d = "C01 sweep event" + d[i:]
+				}
+			}
+			if job.Kind == "c11-sweep" {
+				if i := strings.Index(d, " -> "); i >= 0 {
+					d = "C11 sweep message" + d[i:]
 				}
 			}
 			r.outcome(d)
